@@ -285,6 +285,11 @@ pub fn judge(sc: &Scenario, obs: &[(u32, Obs)]) -> Judged {
                     let pname = ["indeterminate", "bogus", "insecure", "secure"][r.proof as usize];
                     classes.push(pname.to_string());
                     if r.proof != 3 {
+                        // completeness is not C06's subject (only-if oracle); counted so that the
+                        // report can say how often a fully valid (RRSIG, key) pair was not honoured
+                        if verdicts.iter().any(|v| v.allowed && v.owner == r.owner && v.class == r.class && v.rtype == r.rtype) {
+                            j.outcomes.push("obs:valid-rrsig-and-key-present-but-record-not-secure(not-judged)".into());
+                        }
                         continue;
                     }
                     any_secure = true;
